@@ -6,6 +6,7 @@ from ..r_hygiene import rule_hygiene as _rule_hygiene
 from ..r_rings import rule_ring_mark_is_bool as _rule_mark_bool
 from ..r_rings import rule_hybridization_table as _rule_hyb
 from ..r_rings import rule_simple_cycle_guard as _rule_simple, rule_pid_replace_or_extend as _rule_pid
+from ..r_round8 import rule_canonic_ring_orientation as _r8_canon
 
 LEVEL = 'other'
 
@@ -21,3 +22,4 @@ def run(ck, repo):
     _rule_hyb(ck, repo, 'C06.D4-hybridization')
     _rule_simple(ck, repo, 'C06.D5-simple-cycles')
     _rule_pid(ck, repo, 'C06.D5-pid-tables')
+    _r8_canon(ck, repo, 'C06.D6-canonic-ring-orientation')
